@@ -97,7 +97,18 @@ def mjxMatch (lit : Str) : Matcher := fun s =>
       | [] => none
     | _ => none
 
-/-! ### pass 3: `xmlns:[[:alpha:]]+` -> "xmlns" (first match only) -/
+/-! ### namespace prefixes: `[[:alpha:]_][[:alnum:]_.-]*` (an ASCII XML name without a colon) -/
+
+def isNameStart (c : Nat) : Bool := isAlpha c || c = 95
+def isNameChar (c : Nat) : Bool := isAlpha c || (48 ≤ c && c ≤ 57) || c = 95 || c = 46 || c = 45
+
+/-- the longest name at the start of the text, and what follows it (greedy; no shorter match can be followed by `:`,
+which is not a name character, so the regex engine's backtracking changes nothing) -/
+def nameSpan : Str → Option (Str × Str)
+  | c :: cs => if isNameStart c then (let (a, b) := span isNameChar cs; some (c :: a, b)) else none
+  | [] => none
+
+/-! ### pass 3: `xmlns:NAME` -> "xmlns" (first match only) -/
 
 def xmlnsColon : Str := [120, 109, 108, 110, 115, 58]   -- "xmlns:"
 def xmlnsWord : Str := [120, 109, 108, 110, 115]
@@ -106,23 +117,21 @@ def nsMatch : Matcher := fun s =>
   match stripPrefix? xmlnsColon s with
   | none => none
   | some s1 =>
-    match span isAlpha s1 with
-    | ([], _) => none
-    | (p, _) => some (xmlnsColon.length + p.length - 1, xmlnsWord)
+    match nameSpan s1 with
+    | none => none
+    | some (p, _) => some (xmlnsColon.length + p.length - 1, xmlnsWord)
 
-/-! ### pass 4: `(</?)[[:alpha:]]+:` -> "$1" -/
+/-! ### pass 4: `(</?)NAME:` -> "$1" -/
 
 def prefixMatch : Matcher := fun s =>
   match s with
   | 60 :: 47 :: cs =>
-    (match span isAlpha cs with
-     | ([], _) => none
-     | (p, 58 :: _) => some (1 + p.length + 1, [60, 47])
+    (match nameSpan cs with
+     | some (p, 58 :: _) => some (1 + p.length + 1, [60, 47])
      | _ => none)
   | 60 :: cs =>
-    (match span isAlpha cs with
-     | ([], _) => none
-     | (p, 58 :: _) => some (p.length + 1, [60])
+    (match nameSpan cs with
+     | some (p, 58 :: _) => some (p.length + 1, [60])
      | _ => none)
   | _ => none
 
